@@ -208,107 +208,73 @@ def run(R):
     # ---------------------------------------------------------------- R5 exactly one grpc-status / trailers typestate
     R.describe('C03.R5', 'EncodeBody: once the end-of-stream flag is set no further frame is produced; trailers are built only in the server role and set the flag first; the client role never produces trailers')
     with R.guard('C03.R5'):
-        pf = tonic.body(re.compile(r'codec::encode::EncodeBody<T, U> as http_body::Body>::poll_frame$'))
         tr = tonic.body('codec::encode::EncodeState::trailers')
+        pf, rows = encode_body_rows(tonic)
         R.saw(pf, tr)
 
         def flag_place(p):
             return mirlib.place_fields(p)[-1:] == ['is_end_stream']
-
-        def on_stmt(body, bb, i, stmt, st):
-            if 'p' in stmt and flag_place(stmt['p']):
-                v = const_val(body._origin_def(('stmt', bb, i, stmt['rv']), 0, set()))
-                st = dict(st)
-                st['end'] = frozenset(['T'] if v is True else (['F'] if v is False else ['T', 'F']))
-                return st
-            return None
-
-        def on_term(body, bb, t, st):
-            if t['k'] == 'call' and (t.get('fn') or '').endswith('EncodeState::trailers'):
-                st = dict(st)
-                st['end'] = frozenset(st['end'] | {'T'})
-                return st
-            return None
-
-        def on_edge(body, bb, tgt, vals, st):
-            o = strip_refs(body.origin(body.term(bb)['on']))
-            if o[0] == 'field' and o[2] == 'is_end_stream':
-                cur = st['end']
-                if vals == [0]:
-                    new = cur & {'F'}
-                elif vals == ['else'] or (0 not in vals and 'else' not in vals):
-                    new = cur & {'T'}
-                else:
-                    new = cur
-                if not new:
-                    return False
-                st = dict(st)
-                st['end'] = frozenset(new)
-                return st
-            if o[0] == 'un' and o[1] == 'Not':
-                inner = strip_refs(o[2])
-                if inner[0] == 'field' and inner[2] == 'is_end_stream':
-                    cur = st['end']
-                    new = cur & ({'T'} if vals == [0] else {'F'})
-                    if not new:
-                        return False
-                    st = dict(st)
-                    st['end'] = frozenset(new)
-                    return st
-            return None
-
-        # poll_frame entered with the flag already set: nothing but None/Pending may come out
-        ts = TypeState(pf, {'end': {'T'}}, on_stmt, on_term, on_edge).run()
+        # poll_frame entered with the flag already set: nothing but None may come out and the source is not polled
         prod = 0
-        for bb in writers_of(pf, 0):
-            if bb not in ts.inp:
-                continue
-            for k in frame_kind(pf, bb):
+        for r in rows:
+            st = site(pf, r['path'][-1])
+            if r['ended'] is True:
                 prod += 1
-                R.check(k in ('none', 'pending', 'maybe-trailers'), 'C03.R5', 'after-end:%s' % k, site(pf, bb),
-                        'with is_end_stream already true, poll_frame can still produce %r (a frame after the trailers if the body is polled to exhaustion, '
-                        'e.g. source yields Err(status) then further Ok items)' % k)
+                R.check(r['kind'] in ('none', 'pending') and not r['polled'], 'C03.R5', 'after-end:%s' % r['kind'], st,
+                        'with is_end_stream already true, poll_frame produces %r (source polled: %r) — a frame after the trailers if the body is polled to exhaustion, '
+                        'e.g. source yields Err(status) then further Ok items' % (r['kind'], r['polled']))
+            elif r['ended'] is None:
+                R.check(r['kind'] in ('none', 'pending') and not r['polled'], 'C03.R5', 'after-end:flag-not-consulted', st, 'a path to %r does not test is_end_stream first' % r['kind'])
         R.floor('C03.R5', 'return-slot writers reachable after end', prod, 1)
-        # normal entry: trailers frames only with the flag set on that path, only in the server role
-        ts2 = TypeState(pf, {'end': {'F'}}, on_stmt, on_term, on_edge).run()
         ntr = 0
-        for bb in writers_of(pf, 0):
-            ks = frame_kind(pf, bb)
-            if 'trailers' in ks:
+        for r in rows:
+            st = site(pf, r['path'][-1])
+            if r['kind'] == 'trailers':
                 ntr += 1
-                st = ts2.inp.get(bb, {'end': frozenset()})
-                R.check(st['end'] == frozenset(['T']), 'C03.R5', 'trailers-sets-end-first', site(pf, bb), 'is_end_stream at the trailers frame construction: %r' % sorted(st['end']))
-                gs = pf.edge_guards(bb)
-                role = [vals for s, vals, tm in gs if show(tm).startswith('discr(') and 'role' in show(tm)]
-                radt = {v['name']: v['discr'] for v in tonic.adt('codec::encode::Role')['variants']}
-                R.check(role and all(v == [radt['Server']] for v in role), 'C03.R5', 'trailers-server-only', site(pf, bb), 'role guards: %r (Server=%d)' % (role, radt['Server']))
-                tt = strip_refs(block_writes(pf, bb, 0)[0][2][0])
-                okt = term_contains(tt, lambda x: is_call(x, name='to_header_map') and term_contains(x, lambda y: y and y[0] == 'variant' and y[2] == 'Err'))
-                R.check(okt, 'C03.R5', 'trailers-carry-that-status', site(pf, bb), 'trailers built by to_header_map of the Err payload: %r' % okt)
+                R.check(r['sets_end'] == [True], 'C03.R5', 'trailers-sets-end-first', st, 'is_end_stream := true on the path that builds the trailers frame: %r' % r['sets_end'])
+                R.check(r['role'] == 'Server', 'C03.R5', 'trailers-server-only', st, 'role on that path: %r' % r['role'])
+                okt = term_contains(r['value'], lambda x: is_call(x, name='to_header_map') and term_contains(x, lambda y: y and y[0] == 'variant' and y[2] == 'Err'))
+                R.check(okt, 'C03.R5', 'trailers-carry-that-status', st, 'trailers built by to_header_map of the Err payload: %r' % okt)
+            if r['role'] == 'Client':
+                R.check(r['kind'] not in ('trailers', 'state-trailers') or r['kind'] == 'state-trailers', 'C03.R5', 'client-never-trailers', st, 'client role outcome %s' % r['kind'])
         R.floor('C03.R5', 'error-trailers sites in poll_frame', ntr, 1)
-        # EncodeState::trailers decision table
-        radt = {v['discr']: v['name'] for v in tonic.adt('codec::encode::Role')['variants']}
-        rows = decision_rows(tr, 0, writers_of(tr, 0))
-        table = {}
-        for cons, bb in rows:
-            d = cons_dict(cons)
-            role = [radt.get(v[1]) for k, v in d.items() if k.startswith('discr(') and 'role' in k and v[0] == '==']
-            ended = bool_guard(cons, lambda s: s.endswith('is_end_stream'))
-            w = block_writes(tr, bb, 0)
-            val = w[0][2] if w and w[0][0] == 'variant' else '?'
-            table[(role[0] if role else None, ended)] = (val, bb)
-        R.eq(table.get(('Client', None), ('?',))[0], 'None', 'C03.R5', 'trailers():client', site(tr), 'EncodeState::trailers in the client role')
-        R.eq(table.get(('Server', True), ('?',))[0], 'None', 'C03.R5', 'trailers():server-ended', site(tr), 'server role, already ended')
-        R.eq(table.get(('Server', False), ('?',))[0], 'Some', 'C03.R5', 'trailers():server-first', site(tr), 'server role, first end')
-        if ('Server', False) in table:
-            sb = table[('Server', False)][1]
-            setf = [(bb, i) for bb, i, st in mirlib.assignments(tr, lambda st: flag_place(st['p']))]
-            R.check(len(setf) == 1 and tr.dominates(setf[0][0], sb) and const_val(tr._origin_def(('stmt', setf[0][0], setf[0][1], tr.blocks[setf[0][0]]['stmts'][setf[0][1]]['rv']), 0, set())) is True,
-                    'C03.R5', 'trailers():sets-end', site(tr, sb), 'is_end_stream := true dominates Some(trailers)')
-            w = block_writes(tr, sb, 0)
-            tt = w[0][3][0]
-            okt = term_contains(tt, lambda x: is_call(x, name='to_header_map')) and term_contains(tt, lambda x: is_call(x, name='take') and mentions_field(x, 'error')) and term_contains(tt, lambda x: is_call(x, pat='Status::ok'))
-            R.check(okt, 'C03.R5', 'trailers():status-source', site(tr, sb), 'trailers = to_header_map(error.take() or Status::ok): %r' % okt)
+        # EncodeState::trailers decision table (by feasible path)
+        meta = {}
+        trows = mirlib.path_rows(tr, meta=meta)
+        seen_rows = set()
+        for cons, path in trows:
+            v = cons_view(cons, meta)
+            role = view_get(v, lambda k: k.startswith('discr(') and k.rstrip(')').endswith('.role'))
+            ended = view_get(v, lambda k: k.endswith('is_end_stream') and 'discr(' not in k)
+            ended = None if ended is None else bool(ended)
+            val = mirlib.simplify(tr.ret_on_path(path))
+            kind = val[1].get('variant') if val[0] == 'agg' else '?'
+            sets = [const_val(x[3]) for x in tr.writes_on_path(path, flag_place)]
+            st = site(tr, path[-1])
+            seen_rows.add((role, ended, kind))
+            if kind == 'Some':
+                R.check(role == 'Server' and ended is False, 'C03.R5', 'trailers():server-first', st, 'Some(trailers) only in the server role with the flag clear: role %r, ended %r' % (role, ended))
+                R.check(sets == [True], 'C03.R5', 'trailers():sets-end', st, 'is_end_stream := true on the path returning Some(trailers): %r' % sets)
+                thm = find_terms(val, lambda x: is_call(x, name='to_header_map'))
+                src = strip_refs(thm[0][2][0]) if thm else ('x',)
+                # error.take() payload, Status::ok(""), or error.take().unwrap_or_else(|| Status::ok(""))
+                ok_take = term_contains(src, lambda x: is_call(x, name='take') and mentions_field(x, 'error'))
+                ok_ok = is_call(src, pat='Status::ok')
+                if is_call(src) and src[3] in ('unwrap_or_else', 'unwrap_or', 'unwrap_or_default') and len(src[2]) >= 1:
+                    dflt = strip_refs(src[2][1]) if len(src[2]) > 1 else ('x',)
+                    if dflt[0] == 'agg' and 'def' in dflt[1]:
+                        cb_ = tonic.body(re.compile('^' + re.escape(dflt[1]['def']) + '$'))
+                        ok_ok = all(is_call(strip_refs(t_), pat='Status::ok') for _, t_ in mirlib.returned_terms(cb_))
+                    else:
+                        ok_ok = is_call(dflt, pat='Status::ok')
+                    ok_take = ok_take and ok_ok
+                R.check(bool(thm) and (ok_take or ok_ok), 'C03.R5', 'trailers():status-source', st, 'trailers = to_header_map(error.take() or Status::ok): %s' % show(src)[:100])
+            else:
+                R.check(kind == 'None' and not (role == 'Server' and ended is False), 'C03.R5', 'trailers():%s' % ('client' if role == 'Client' else 'server-ended'), st, 'role %r, ended %r -> %s' % (role, ended, kind))
+                R.check(not sets, 'C03.R5', 'trailers():none-leaves-flag', st, 'no flag write on a None path: %r' % sets)
+        R.check(any(k == 'Some' for _, _, k in seen_rows), 'C03.R5', 'trailers():server-first:exists', site(tr), 'a path returning Some(trailers) exists')
+        R.check(any(ro == 'Client' and k == 'None' for ro, _, k in seen_rows), 'C03.R5', 'trailers():client:exists', site(tr), 'client role -> None')
+        R.check(any(en is True and k == 'None' for _, en, k in seen_rows), 'C03.R5', 'trailers():server-ended:exists', site(tr), 'already ended -> None')
         # is_end_stream() reports the flag
         ie = tonic.body(re.compile(r'codec::encode::EncodeBody<T, U> as http_body::Body>::is_end_stream$'))
         rt = mirlib.returned_terms(ie)
